@@ -111,6 +111,9 @@ class Timeout(Exception):
     pass
 
 
+TIMEOUTS = [0]
+
+
 def _alarm(signum, frame):
     raise Timeout()
 
@@ -806,10 +809,13 @@ def _drive_out(sub, k, binf, args_, strict, start, end, mapaddrs, mapfmt, full, 
     c = {'kind': 'out', 'strict': strict, 'start': start, 'end': end, 'dirs': [], 'subs': [], 'map': mapaddrs, 'iaddr': [], 'warn': 0,
          'timeout': 0, 'err': '', 'skoolerr': '', 'mem': full[start:end], 'ignored': [], 'binstart': 0, 'bin': [],
          'stmts': [], 'args': args_, 'image_kind': kind, 'org': org, 'image': mem, 'mapfmt': mapfmt, 'rstcfg': rstcfg}
-    signal.setitimer(signal.ITIMER_VIRTUAL, 20)
+    # CPU time of this process (not wall time: load does not matter); a run on these images takes milliseconds.  Once runs have
+    # hit the cap in this worker the following ones get a shorter one, so that a generator that loops does not take for ever.
+    signal.setitimer(signal.ITIMER_VIRTUAL, 5 if TIMEOUTS[0] < 3 else 1)
     try:
         ctl, err, rc = pipedrv.run_tool(sna2ctl.main, args_ + [binf])
     except Timeout:
+        TIMEOUTS[0] += 1
         c['timeout'] = 1
         return c
     finally:
